@@ -37,6 +37,8 @@ struct Verdict {
   int threads;
   int nontrivial;
   int blocks;
+  long schedules;      // enumeration stage: schedules executed for this configuration
+  int complete;        // ... and whether the bounded space was exhausted
 };
 
 static int out_fd = -1;
@@ -65,15 +67,19 @@ static void fail(const char *clause, const std::string &msg) {
 //          1: tasks signal completion through the producer's own condition variable; the producer stops
 //             after the last completion (the HASHRPDACBlocks pattern)
 //          2: the last task itself calls stop_all_workers (the parallel_test pattern)
+static void pool_run(int w, int t, int protocol, const std::function<void()> &begin);
 static void scenario_pool(Src &s, const std::vector<uint8_t> &schedule) {
   int w = 1 + s.below(4);
   int t = s.below(13);
   int protocol = s.below(3);
   if (protocol == 2 && t == 0) protocol = 0;
+  pool_run(w, t, protocol, [&] { vsched_begin(schedule.data(), schedule.size()); });
+}
+static void pool_run(int w, int t, int protocol, const std::function<void()> &begin) {
   std::vector<int> count(t, 0), inflight(t, 0);
   int overlap = 0;
   vsched_on_deadlock = on_deadlock;
-  vsched_begin(schedule.data(), schedule.size());
+  begin();
   {
     WorkerPool pool(w);
     std::mutex m;
@@ -111,6 +117,56 @@ static void scenario_pool(Src &s, const std::vector<uint8_t> &schedule) {
   V.nontrivial = st.preemptions >= 1 && t >= 1;
   snprintf(V.msg + strlen(V.msg), sizeof V.msg - strlen(V.msg), " [w=%d t=%d protocol=%d]", w, t, protocol);
 }
+
+#ifndef VERIF_NATIVE
+// ------------------------------------------------------------------ C10, enumeration stage
+// One case = one configuration (workers, tasks, protocol) taken from the stratum; ALL schedules with at
+// most `bound` pre-emptions of a runnable thread are executed (stateless depth-first search over the
+// recorded choice points: the same oracle after every schedule).  Runs in-process inside the forked child;
+// a deadlock ends the child with the verdict and the choice list that led to it.
+static std::string enum_list() {
+  unsigned char c[512], k[512];
+  size_t n = vsched_enum_trace(c, k, 512);
+  std::string o;
+  for (size_t i = 0; i < n && i < 512; i++) o += std::to_string((int)c[i]) + (i + 1 < n ? "." : "");
+  return o;
+}
+static void on_deadlock_enum(const vsched_stats *s) {
+  V.code = 86;
+  snprintf(V.clause, sizeof V.clause, "deadlock");
+  snprintf(V.msg, sizeof V.msg, "%s after choices %s", s->detail, enum_list().substr(0, 200).c_str());
+  V.points = s->points; V.preemptions = s->preemptions; V.cond_waits = s->cond_waits; V.threads = s->threads;
+  send_verdict();
+}
+static void scenario_pool_enum(int stratum, int bound, long cap) {
+  int w = 1 + stratum % 3, t = (stratum / 3) % 4, protocol = (stratum / 12) % 3;
+  if (protocol == 2 && t == 0) protocol = 0;
+  if (w == 3 && bound > 1) bound--;   // four threads: the unbounded choices after a block multiply the space (1.1e6 schedules at bound 2, t=2)
+  std::vector<unsigned char> prefix;
+  long runs = 0, points = 0, pre = 0;
+  int complete = 0;
+  while (true) {
+    pool_run(w, t, protocol, [&] { vsched_begin_enum(prefix.data(), prefix.size(), bound); vsched_on_deadlock = on_deadlock_enum; });
+    runs++;
+    points += V.points; pre += V.preemptions;
+    if (V.code) { snprintf(V.msg + strlen(V.msg), sizeof V.msg - strlen(V.msg), " after choices %s", enum_list().substr(0, 150).c_str()); break; }
+    static unsigned char c[4096], k[4096];
+    size_t n = vsched_enum_trace(c, k, 4096);
+    if (n > 4096) { snprintf(V.clause, sizeof V.clause, "inconclusive"); snprintf(V.msg, sizeof V.msg, "more than 4096 choice points"); break; }
+    long i = (long)n - 1;
+    while (i >= 0 && c[i] + 1 >= k[i]) i--;
+    if (i < 0) { complete = 1; break; }
+    prefix.assign(c, c + i);
+    prefix.push_back((unsigned char)(c[i] + 1));
+    if (runs >= cap) break;
+    V.msg[0] = 0;
+  }
+  V.schedules = runs; V.complete = complete; V.points = points; V.preemptions = pre;
+  V.nontrivial = runs >= 2;
+  if (!V.code && strcmp(V.clause, "inconclusive") != 0)
+    snprintf(V.msg, sizeof V.msg, "[enum w=%d t=%d protocol=%d bound=%d schedules=%ld complete=%d]", w, t, protocol, bound, runs, complete);
+}
+#endif
 
 // ------------------------------------------------------------------ C09: the parallel block build
 static void scenario_blocks(Src &s, const std::vector<uint8_t> &schedule) {
@@ -254,7 +310,14 @@ int run_case(const uint8_t *data, size_t n, CaseCtx &ctx) {
       }
     }
 #else
-    if (P == "C10") scenario_pool(s, schedule);
+    if (P == "C10" && cfg.param.compare(0, 4, "enum") == 0) {
+      // param: enum:<bound>:<cap>
+      int bound = 2; long cap = 200000;
+      sscanf(cfg.param.c_str(), "enum:%d:%ld", &bound, &cap);
+      alarm(3000);
+      scenario_pool_enum(cfg.stratum < 0 ? 0 : cfg.stratum, bound, cap);
+    }
+    else if (P == "C10") scenario_pool(s, schedule);
     else scenario_blocks(s, schedule);
 #endif
     send_verdict();
@@ -271,6 +334,7 @@ int run_case(const uint8_t *data, size_t n, CaseCtx &ctx) {
   ctx.state = "-";
   ctx.op = "schedule";
   ctx.hash = fnv(data, n, fnv_str(P, 1469598103934665603ULL));
+  if (cfg.param.compare(0, 4, "enum") == 0) ctx.hash = fnv_u64((uint64_t)cfg.stratum, fnv_str(cfg.param, ctx.hash));
   if (r != (ssize_t)sizeof v) {
     if (WIFSIGNALED(status) && WTERMSIG(status) == SIGALRM) { ctx.conclusive = false; ctx.inconclusive_reason = "scheduler-lost-control"; }
     else if (WIFSIGNALED(status)) ctx.event(P.c_str(), "crash", "child died with signal " + std::to_string(WTERMSIG(status)));
@@ -287,6 +351,7 @@ int run_case(const uint8_t *data, size_t n, CaseCtx &ctx) {
   if (v.blocks >= 4) ctx.labels.insert("blocks_ge4");
   if (v.blocks >= 1000) ctx.labels.insert("blocks_ge1000");
   if (v.notify_lost) ctx.labels.insert("notify_without_waiter");
+  if (v.schedules) { ctx.counters["enum_schedules"] += (int)std::min<long>(v.schedules, 1 << 30); ctx.labels.insert(v.complete ? "enum_complete" : "enum_capped"); }
   ctx.sample = std::string("{\"scenario\":\"") + (P == "C10" ? "pool" : "blocks") + "\",\"detail\":\"" + jesc(v.msg) + "\",\"threads\":" + std::to_string(v.threads) + ",\"sched_points\":" + std::to_string(v.points) + ",\"preemptions\":" + std::to_string(v.preemptions) + ",\"schedule_bytes\":" + std::to_string(schedule.size()) + "}";
   if (cfg.trace) real_err("CASE %s\n", ctx.sample.c_str());
   if (strcmp(v.clause, "inconclusive") == 0) { ctx.conclusive = false; ctx.inconclusive_reason = v.msg; return 0; }
